@@ -1,6 +1,7 @@
 #!/bin/bash
 # usage: tools/seed_eval.sh C05 [check ids...]   -- confirms an independently written breaking change and runs our checks on it
 # 1) clean scratch worktree: patch applies, builds, existing tests pass, demo fails with / passes without the patch
+# env: TIER=thorough BUDGET=<s per unit> SKIPCONFIRM=1 (skip step 1)
 # 2) apply to /repo, run the named checks (default: the property's own), undo.
 set -u
 id=$1; shift
@@ -21,6 +22,7 @@ echo "== $id: patch touches: $(grep '^+++ ' $src/patch.diff | tr '\n' ' ')  demo
 ( cd $wt && git apply $src/patch.diff ) || { echo "PATCH DOES NOT APPLY"; exit 2; }
 cp $src/zz_seed_demo_test.go $wt/$demodir/zz_seed_demo_test.go
 ( cd $wt && go build ./pkg/... ) || { echo "BUILD FAILS"; exit 2; }
+if [ -z "${SKIPCONFIRM:-}" ]; then
 echo "-- existing tests with the change (demo skipped):"
 ( cd $wt && go test -count=1 -skip 'SeedDemo' ./pkg/execution/... ./pkg/core/... ./pkg/runtime/... ./pkg/utils/... 2>&1 | grep -v "^ok\|no test files" | head -10; echo "existing-tests-exit=${PIPESTATUS[0]}" )
 echo "-- demo with the change (expected FAIL):"
@@ -28,8 +30,9 @@ echo "-- demo with the change (expected FAIL):"
 ( cd $wt && git apply -R $src/patch.diff )
 echo "-- demo without the change (expected ok):"
 ( cd $wt && go test -count=1 -run 'SeedDemo' ./$demodir/ 2>&1 | tail -2 )
-echo "-- our checks with the change applied (overlay build, /repo untouched):"
 ( cd $wt && git apply $src/patch.diff )
+fi
+echo "-- our checks with the change applied (overlay build, /repo untouched):"
 so=/root/scratch/seedout-$id; rm -rf $so; mkdir -p $so; cp /verif/known_findings.json /verif/MANIFEST.json $so/
 python3 - "$wt" "$src/patch.diff" "$so/overlay.json" <<'PY'
 import json,sys,re
@@ -39,7 +42,7 @@ json.dump({"Replace":{"/repo/"+f: wt+"/"+f for f in files}}, open(out,"w"))
 PY
 ( cd /verif && go build -tags verif -overlay $so/overlay.json -o $so/mc ./cmd/mc ) || { echo "overlay build failed"; exit 2; }
 for c in $checks; do
-  out=$(cd /verif && VERIF_DIR=$so VERIF_BUDGET_S=150 $so/mc check $c quick 2>&1)
+  out=$(cd /verif && VERIF_DIR=$so VERIF_BUDGET_S=${BUDGET:-150} $so/mc check $c ${TIER:-quick} 2>&1)
   echo "$c exit=$? $(echo "$out" | grep -c '^VIOLATION') violation line(s)"
   echo "$out" | grep -A2 "^VIOLATION" | head -9 | cut -c1-400
 done
